@@ -99,6 +99,22 @@ Definition run_c18_view (t v smd js eq cmp : sexp) : outcome :=
   | _, _ => out_bad "c18.view decode"
   end.
 
+(* two reflected values of one Go type: the library's equality and ordering on the reflected
+   representation against the model's on their generic views *)
+Definition run_rpair (ua ub eqab eqba cmpab cmpba : sexp) : outcome :=
+  match dec_value ua, dec_value ub, dec_bool eqab, dec_bool eqba, dec_int cmpab, dec_int cmpba with
+  | Some a, Some b, Some eab, Some eba, Some cab, Some cba =>
+      let me := veqb a b in
+      let mc := vcmp a b in
+      let sg (z : Z) : comparison := (z ?= 0)%Z in
+      mkOut (chk (Bool.eqb eab me && Bool.eqb eba me) "corr equals of two reflected values = equals of their generic views" @@
+             chk (cmp_eqb (sg cab) mc) "corr compare of two reflected values = compare of their generic views" @@
+             chk (Bool.eqb (Z.eqb cab 0) eab && Bool.eqb (Z.eqb cba 0) eba) "prop compare=0 iff equals (two reflected values)" @@
+             chk (cmp_eqb (sg cba) (CompOpp (sg cab))) "prop compare is antisymmetric (two reflected values)")
+            4 (if me then 1 else 2) [if me then "rpair-equal" else "rpair-different"]
+  | _, _, _, _, _, _ => out_bad "rpair"
+  end.
+
 Definition run_c18_codec (v j y : sexp) : outcome :=
   match dec_bool j, dec_bool y with
   | Some j, Some y =>
